@@ -38,6 +38,12 @@ CHECKS = {
         "DESIGN.md §4 C12",
         TRUSTED + " No reference model: the laws relate implementation outcomes to each other.",
     ),
+    "C05": (
+        "exhaustive enumeration of architectures x layerings (name / regex / mixed definitions) x layer rules; real LayerRule.assert_applies vs layer model, messages with layer tags parsed and compared",
+        "For every architecture in the bounds (collision-free and adversarial naming), every partition of every antichain of 2-4 modules into 2-4 layers (0-1 modules in no layer) is defined through the real LayeredArchitecture builder in four definition styles and every layer rule (12 shapes + 2 aliases, every subject layer, 1-2 object layers) is evaluated with the real implementation and compared with the independent layer model, verdict and parsed message.",
+        "DESIGN.md §4 C05",
+        TRUSTED + " Layer regexes match exactly their layer's modules; layer modules pairwise unrelated, as the property requires.",
+    ),
 }
 
 PENDING = {}
